@@ -17,7 +17,7 @@
    [dc] is fuel-bounded and fails on a cyclic graph), scalar contents are opaque codes chosen by the harness. *)
 From Coq Require Import ZArith List Bool Lia.
 Import ListNotations.
-Require Import PyBase.
+Require Import PyBase Generated.
 Open Scope Z_scope.
 
 (* ------------------------------------------------------------------ objects *)
@@ -98,6 +98,21 @@ Definition same_subheap (h h' : heap) (r : loc) : Prop :=
 Fixpoint mem_nat (x : nat) (l : list nat) : bool :=
   match l with [] => false | y :: r => Nat.eqb x y || mem_nat x r end.
 
+(* what K compares of a VectorContainer-family instance is its __dict__ AS A MAP (sorted by key: the insertion order of the entries
+   is not constrained by the property), and its `_attributes` list as a set of names (sorted) *)
+Fixpoint insert_cell (c : Z * val) (l : list (Z * val)) : list (Z * val) :=
+  match l with
+  | [] => [c]
+  | d :: r => if fst c <=? fst d then c :: l else d :: insert_cell c r
+  end.
+Definition sort_cells (l : list (Z * val)) : list (Z * val) := fold_right insert_cell [] l.
+Definition norm_cells (k : kind) (cs : list (Z * val)) : list (Z * val) :=
+  match k with KCont _ => sort_cells cs | _ => cs end.
+Definition KEY_ATTRIBUTES : Z := 14.      (* = attr_key N_attributes (checked in HeapExamples.ex_key_attributes) *)
+Definition scalar_of (v : val) : Z := match v with VS z => z | VR _ => 0 end.
+Definition sorted_values (cs : list (Z * val)) : list (Z * val) :=
+  enum (map (fun c => VS (fst c)) (sort_cells (map (fun c => (scalar_of (snd c), snd c)) cs))).
+
 (* depth-first, cells in order, first visit wins; returns visited locations with the first path (keys) to each *)
 Fixpoint dfs (fuel : nat) (h : heap) (todo : list (loc * list Z)) (seen : list (loc * list Z)) : list (loc * list Z) :=
   match fuel with
@@ -111,7 +126,7 @@ Fixpoint dfs (fuel : nat) (h : heap) (todo : list (loc * list Z)) (seen : list (
         match nth_error h l with
         | None => dfs f h rest (seen ++ [(l, p)])
         | Some o =>
-          let kids := flat_map (fun c => match snd c with VR l' => [(l', p ++ [fst c])] | VS _ => [] end) (ocells o) in
+          let kids := flat_map (fun c => match snd c with VR l' => [(l', p ++ [fst c])] | VS _ => [] end) (norm_cells (okind o) (ocells o)) in
           dfs f h (kids ++ rest) (seen ++ [(l, p)])
         end
     end
@@ -165,7 +180,7 @@ Definition kind_code (k : kind) : Z * Z :=
 
 Inductive ctree : Type := CS (z : Z) | CO (k : Z * Z) (cells : list (Z * ctree)) | CCut.
 
-Fixpoint cview (n : nat) (h : heap) (v : val) : ctree :=
+Fixpoint cview_ (n : nat) (h : heap) (as_set : bool) (v : val) : ctree :=
   match v with
   | VS z => CS z
   | VR l =>
@@ -174,10 +189,14 @@ Fixpoint cview (n : nat) (h : heap) (v : val) : ctree :=
     | S n' =>
       match nth_error h l with
       | None => CCut
-      | Some o => CO (kind_code (okind o)) (map (fun c => (fst c, cview n' h (snd c))) (ocells o))
+      | Some o =>
+        let cs := if as_set then sorted_values (ocells o) else norm_cells (okind o) (ocells o) in
+        let attrs := match okind o with KCont _ => true | _ => false end in
+        CO (kind_code (okind o)) (map (fun c => (fst c, cview_ n' h (attrs && (fst c =? KEY_ATTRIBUTES)) (snd c))) cs)
       end
     end
   end.
+Definition cview (n : nat) (h : heap) (v : val) : ctree := cview_ n h false v.
 
 Fixpoint ctree_eqb (a b : ctree) {struct a} : bool :=
   match a, b with
@@ -435,6 +454,7 @@ Definition F_MODEL := nm 30.      (* 0 = plain VectorContainer, 1 = BaseModel, 2
 Definition F_ALIAS := nm 31.      Definition F_TRACER := nm 32.
 Definition C_EXOGENOUS := nm 34.
 Definition TAG_TRACE : Z := 1.
+Definition TAG_SET : Z := 2.          (* a Python set: its elements in a canonical order *)
 
 Definition A (c : Z) : Z := attr_key c.
 Definition V (c : Z) : Z := var_key c.
@@ -837,6 +857,8 @@ Inductive op : Type :=
 | OPathAppend (p : path) (v : Z)                   (* <list reached from the object through p>.append(v), e.g. obj.trace[t].names *)
 | OAliasAttr (name : Z) (p : path)                 (* obj.name = <the object's own object at p>, e.g. m.mine = m.names : the user
                                                       creates aliasing between two entries of one object *)
+| OSetAttrNested (name : Z) (vss : list (list Z))  (* obj.name = [[..], [..]] : a list of lists (a fresh list holding fresh lists) *)
+| OSetAttrSet (name : Z) (vs : list Z)             (* obj.name = {..} : a set (the elements in a canonical order) *)
 | OReplaceSeries (name : Z) (vs : list Z).         (* obj.name = <ndarray> : an array is no Sequence, so __setattr__ writes its
                                                       VALUES in place (self._name[:] = value); a shape mismatch raises *)
 
@@ -912,6 +934,20 @@ Definition compile_op (K : consts) (h : heap) (r : loc) (o : op) : list action :
     if zmem x (scalars_path h r [A N_index]) then []
     else if zmem x (scalars_path h r [A N_attributes]) then [ASet [] (A x) (SAlias p)]
     else if own_scalar h r (A N_strict) =? k_false K then add_attribute_acts x (SAlias p)
+    else []
+  | OSetAttrNested name vss =>
+    let x := resolve_alias h r name in
+    let inner := map (fun vs => AAppend [A x] (new_list vs)) vss in
+    if zmem x (scalars_path h r [A N_index]) then []
+    else if zmem x (scalars_path h r [A N_attributes]) then ASet [] (A x) (new_list []) :: inner
+    else if own_scalar h r (A N_strict) =? k_false K then add_attribute_acts x (new_list []) ++ inner
+    else []
+  | OSetAttrSet name vs =>
+    let x := resolve_alias h r name in
+    let s := SFresh (KObj TAG_SET) (pos_cells vs) in
+    if zmem x (scalars_path h r [A N_index]) then []
+    else if zmem x (scalars_path h r [A N_attributes]) then [ASet [] (A x) s]
+    else if own_scalar h r (A N_strict) =? k_false K then add_attribute_acts x s
     else []
   | OReplaceSeries name vs =>
     let x := resolve_alias h r name in
@@ -1032,7 +1068,46 @@ Definition linker_solve_ops (t : Z) (subs : list (Z * list (Z * Z))) (passes : n
   ++ [OSolveStatus t st it]
   ++ map (fun kw => OSubStatus (fst kw) t st it) subs.
 
+(* ------------------------------------------------------------------ the three copy routes as distinct entry points.
+   obj.copy() is the method; copy.copy(obj) goes through __copy__ when the class defines it and through object.__reduce_ex__
+   otherwise (a new instance whose __dict__ holds the SAME objects); copy.deepcopy(obj) goes through __deepcopy__ when defined and
+   through __reduce_ex__ + a deep copy of the state under ONE memo, without running __init__, otherwise.  Which of the two happens
+   is read from the source on every check (Gen/Generated.v: `__copy__ is copy`, the body of `__deepcopy__` is `return self.copy()`,
+   no other class of the towers defines an entry point). *)
+Inductive route : Type := RCopy | RCopyCopy | RDeepCopy.
+
+Definition shallow_copy (h : heap) (r : loc) : option (heap * loc) :=
+  match nth_error h r with Some o => Some (h ++ [o], length h) | None => None end.
+
+Definition generic_deepcopy (h : heap) (r : loc) : option (heap * loc) :=
+  match nth_error h r with
+  | Some o => match dc_entries1 h (ocells o) with
+              | Some (h', cs') => Some (h' ++ [mkObj (okind o) cs'], length h')
+              | None => None end
+  | None => None
+  end.
+
+Definition is_linker (h : heap) (r : loc) : bool :=
+  match class_of h r with Some c => class_scalar h c F_MODEL =? 2 | None => false end.
+
+Definition the_copy (K : consts) (h : heap) (r : loc) : option (heap * loc) :=
+  if is_linker h r then linker_copy_M K h r else copy_M K h r.
+
+Definition copy_by_route (dunder_copy_is_copy dunder_deepcopy_returns_copy no_other_entry_points : bool)
+                         (rt : route) (K : consts) (h : heap) (r : loc) : option (heap * loc) :=
+  match rt with
+  | RCopy => the_copy K h r
+  | RCopyCopy => if dunder_copy_is_copy && no_other_entry_points then the_copy K h r else shallow_copy h r
+  | RDeepCopy => if dunder_deepcopy_returns_copy && no_other_entry_points then the_copy K h r else generic_deepcopy h r
+  end.
+
+Definition copy_route (rt : route) (K : consts) (h : heap) (r : loc) : option (heap * loc) :=
+  if is_linker h r
+  then copy_by_route c11_linker_dunder_copy_is_copy c11_linker_dunder_deepcopy_returns_self_copy c11_no_other_copy_entry_points rt K h r
+  else copy_by_route c11_container_dunder_copy_is_copy c11_container_dunder_deepcopy_returns_self_copy c11_no_other_copy_entry_points rt K h r.
+
 Inductive hevent : Type :=
+| HCopyRoute (rt : route) (i : nat)                (* new root := copy of roots[i] taken by route rt *)
 | HOps (i : nat) (os : list op)
 | HEv (e : event)
 | HCopySeries (i j : nat) (srcname dstname : Z)    (* roots[i].dstname = roots[j].srcname : whole-series assignment whose VALUE is
@@ -1044,6 +1119,13 @@ Inductive hevent : Type :=
 
 Definition run_hevent (K : consts) (s : state) (e : hevent) : state :=
   match e with
+  | HCopyRoute rt i =>
+    match nth_error (sroots s) i with
+    | Some r => match copy_route rt K (sh s) r with
+                | Some (h', r') => mkSt h' (sroots s ++ [r'])
+                | None => s end
+    | None => s
+    end
   | HOps i os => fold_left (fun s o => run_fevent K s (FOp i o)) os s
   | HEv e => run_event K s e
   | HCopySeries i j srcname dstname =>
